@@ -190,6 +190,8 @@ impl Indexer {
         if let Some(b) = block {
             let br = r(b.brace_token.span.join());
             f.push(("block".into(), rj(br)));
+            let st: Vec<String> = b.stmts.iter().map(|s| rj(r(s.span()))).collect();
+            f.push(("stmts".into(), format!("[{}]", st.join(","))));
         }
         self.items.push(Item {
             kind: "fn",
